@@ -42,8 +42,8 @@ import (
 	"strconv"
 	"strings"
 	"sync"
-	"syscall"
 	"sync/atomic"
+	"syscall"
 	"testing"
 	"testing/synctest"
 	"time"
@@ -1267,6 +1267,42 @@ func TestVerifC04(t *testing.T) {
 			s.Op(fmt.Sprintf("c04xor %d %s %d", maxVer, vfutil.Hex(data), pos), strings.Join(toks, ","))
 			s.Distinct(fmt.Sprintf("xor/%s/%d", f.Name, pos))
 		}
+		// alterations drawn from VERIF_SEED: two bytes, a length/count-making value written over a byte, a byte removed / inserted
+		for j := 0; j < vfutil.Scale(150, 2000); j++ {
+			g := append([]byte(nil), data...)
+			pos := rnd.Intn(len(g))
+			switch rnd.Intn(4) {
+			case 0:
+				g[pos] ^= byte(rnd.Range(1, 255))
+				g[rnd.Intn(len(g))] ^= byte(rnd.Range(1, 255))
+			case 1:
+				g[pos] = byte(vfC04SetValues[rnd.Intn(len(vfC04SetValues))])
+			case 2:
+				g = append(g[:pos], g[pos+1:]...)
+			default:
+				g = append(g[:pos], append([]byte{byte(rnd.Intn(256))}, g[pos:]...)...)
+			}
+			if bytes.Equal(g, data) {
+				continue
+			}
+			mark(fmt.Sprintf("seeded %s %d", f.Name, j))
+			sup, risky := vfc20.Classify(g)
+			tok := vfC04ParseGuarded(s, g, risky)
+			s.Count("parse_seeded_alterations")
+			if strings.HasPrefix(tok, "!") {
+				continue // reported by vfC04ParseGuarded
+			}
+			if strings.HasPrefix(tok, "d") && !bytes.Equal(g[len(g)-8:], make([]byte, 8)) {
+				s.Count("viol_alteration-accepted")
+				s.Violate("alteration-accepted", fmt.Sprintf("%s altered (seeded) parses to Done (%s)", f.Name, tok),
+					map[string]interface{}{"scenario": "xor-parse", "file": f.Name, "rdb": vfutil.Hex(g)})
+			}
+			if !sup {
+				tok = "u"
+				s.Count("parse_outside_model")
+			}
+			s.Op(fmt.Sprintf("c04parse %d %s", maxVer, vfutil.Hex(g)), tok)
+		}
 	}
 
 	phase("2")
@@ -1281,7 +1317,7 @@ func TestVerifC04(t *testing.T) {
 		return o
 	}
 	ci := 0
-	for _, f := range files {
+	for fi, f := range files {
 		data := f.bytes()
 		for k := 0; k < len(data); k++ {
 			o := pick(ci)
@@ -1291,12 +1327,24 @@ func TestVerifC04(t *testing.T) {
 			vfC04Monitor(s, "send-truncated", f.Name, data[:k], o, r)
 			s.Count("send_truncations")
 		}
-		masks := []int{0x01, 0x10, 0x80, 0xFF}
+		// quick: three fixed masks, one mask and one written value drawn from the seed (per file)
+		masks := append([]int{0x01, 0x80, 0xFF}, vfC04SeedPick([]int{0x02, 0x04, 0x08, 0x10, 0x20, 0x40, 0x7E, 0x8B, 0x55, 0xC3, 0x3F}, 1, int64(40+fi))...)
+		sets := vfC04SeedPick(vfC04SetValues, 1, int64(50+fi))
 		if vfutil.Thorough() {
 			masks = []int{0x01, 0x02, 0x04, 0x08, 0x10, 0x20, 0x40, 0x80, 0xFF, 0x7E, 0x8B}
+			sets = vfC04SetValues
 		}
 		for pos := 0; pos < len(data); pos++ {
+			var alts []int // as XOR masks
 			for _, m := range masks {
+				alts = append(alts, m)
+			}
+			for _, v := range sets {
+				if m := int(data[pos]) ^ v; m != 0 {
+					alts = append(alts, m)
+				}
+			}
+			for _, m := range alts {
 				g := append([]byte(nil), data...)
 				g[pos] ^= byte(m)
 				if _, risky := vfc20.Classify(g); risky {
@@ -1449,21 +1497,30 @@ func TestVerifC04(t *testing.T) {
 				continue
 			}
 			add(data, len(data), false)
-			tstep, pstep := vfutil.Scale(7, 1), vfutil.Scale(5, 1)
+			tstep, pstep := vfutil.Scale(7, 1), vfutil.Scale(7, 1)
 			masks := []int{0x01, 0xF5}
 			if vfutil.Thorough() {
 				masks = []int{0x01, 0x04, 0x10, 0x80, 0xFF, 0xF5, 0x7F}
 			}
-			for k := 0; k < len(data); k += tstep {
+			sd := int(vfutil.Seed() % 1000)
+			for k := sd % tstep; k < len(data); k += tstep {
 				add(data[:k], len(data), true)
 			}
 			// a snapshot written with the checksum disabled (all-zero footer) cannot refuse an alteration
 			checksummed := !bytes.Equal(data[len(data)-8:], make([]byte, 8))
-			for pos := 9; pos < len(data)-8; pos += pstep {
+			for pos := 9 + sd%pstep; pos < len(data)-8; pos += pstep {
 				for _, m := range masks {
 					g := append([]byte(nil), data...)
 					g[pos] ^= byte(m)
 					add(g, len(data), checksummed)
+				}
+				// a length / count-making value written over the byte (all of them in the thorough tier)
+				for vi, v := range vfC04SetValues {
+					if (vfutil.Thorough() || vi == (pos+sd)%len(vfC04SetValues)) && data[pos] != byte(v) {
+						g := append([]byte(nil), data...)
+						g[pos] = byte(v)
+						add(g, len(data), checksummed)
+					}
 				}
 			}
 		}
